@@ -869,6 +869,13 @@ func main() {
 		}
 		ctfe.MaxGetEntriesAllowed = defaultMax
 	}
+	// ---- the production SQL storages over an in-memory driver with client- and server-side faults;
+	// overlapping readers / writers of one chain with their own request contexts (streams.go)
+	t0 := time.Now()
+	sqlStream(lib.SubRand(r), w, roots)
+	t1 := time.Now()
+	cancelStream(lib.SubRand(r), w, roots)
+	fmt.Printf("c14: sql stream %.1fs, overlapping-contexts stream %.1fs\n", t1.Sub(t0).Seconds(), time.Since(t1).Seconds())
 	w.Close()
 	fmt.Printf("c14: wrote %d cases\n", w.Len())
 }
